@@ -206,7 +206,7 @@ def fresh_state_before(s, seq):
     return prior[-1].response if prior else s.original
 
 
-@harness('A3', targets='kopf._cogs.clients.patching.patch_obj', props=['C08', 'C06'],
+@harness('A3', targets='kopf._cogs.clients.patching.patch_obj', props=['C08', 'C06', 'C03'],
          clauses=['addressing', 'merge_patches_complete', 'merge_before_json_and_stop_on_failure',
                   'ops_of_all_fns_on_freshest_body', 'ops_routed_completely', 'version_test_guards_ops',
                   'conflict_carries_all_fns', 'success_drops_fns', 'not_found_is_silent', 'other_failures_escape',
@@ -344,7 +344,7 @@ def identity_bound(s, r, bound_oks):
     return Or(*alts) if alts else False
 
 
-@harness('A4', targets='kopf._cogs.clients.patching.patch_obj', props=['C08'],
+@harness('A4', targets='kopf._cogs.clients.patching.patch_obj', props=['C08', 'C06'],
          clauses=['bound_to_identity'], canaries=['canary.only_json_patches'],
          trusted=['api.patch / as_json_patch / get_url as in A3',
                   'server: a PATCH whose payload states metadata.uid or metadata.resourceVersion (merge-patch) or tests them (JSON-patch) is rejected when they differ'])
@@ -396,7 +396,7 @@ def server_object(vc, tag=''):
     return {'metadata': md, 'spec': {}, 'status': {}}
 
 
-@harness('A2', targets='kopf._core.actions.application.patch_and_check', props=['C07', 'C08'],
+@harness('A2', targets='kopf._core.actions.application.patch_and_check', props=['C07', 'C08', 'C03'],
          clauses=['empty_patch_no_request', 'one_call_for_this_object', 'version_of_last_response',
                   'never_arriving_marker', 'remaining_passed_through', 'inconsistencies_only_logged', 'patch_not_consumed'],
          canaries=['canary.always_the_servers_version', 'canary.always_calls'],
